@@ -118,6 +118,7 @@ type VC struct {
 	resultGoTypes []types.Type
 	lastLock *State
 	preEval  map[ast.Expr]Term
+	argTerms []Term // evaluated arguments of the call whose anchored items are being applied
 }
 
 func (vc *VC) cur() *callFrame { return vc.frames[len(vc.frames)-1] }
